@@ -319,6 +319,7 @@ func expectedCLI(s *gen.Stream, rend [][]byte) (pieces [][]byte, del []bool) {
 		}
 	}
 	di := 0
+	tail := kf1Tail(s)
 	for li := 0; li < len(s.Lines); li++ {
 		l := s.Lines[li]
 		if l.Class == gen.Dump {
@@ -334,15 +335,7 @@ func expectedCLI(s *gen.Stream, rend [][]byte) (pieces [][]byte, del []bool) {
 			continue
 		}
 		t := b[l.Start:l.End]
-		k := false
-		if isRaceLook(t) {
-			tt := string(bytes.TrimRight(t, "\r\n"))
-			if tt == "==================" {
-				k = true
-			} else if li > 0 && s.Lines[li-1].Class == gen.Junk && string(bytes.TrimRight(s.Text(li-1), "\r\n")) == "==================" {
-				k = true
-			}
-		}
+		k := tail[li]
 		pieces = append(pieces, t)
 		del = append(del, k)
 	}
